@@ -36,5 +36,12 @@ int main() {
       if (!(r <= 1e4 * n * 2.2e-16 * (H.norm() + 1e-300))) fail("UpperHessenbergEigen: ||H x - lambda x|| too large", n, p, sc);
     } catch (const std::exception&) {}
   }
+  // small integer Hessenberg matrices: the family in which the Francis iteration occasionally needs its exceptional shifts
+  { unsigned long st = 12345; auto rnd = [&]() { st = st * 6364136223846793005UL + 1442695040888963407UL; return (int)((st >> 33) % 5) - 2; };
+    for (long trial = 0; trial < 400000 && !bad; trial++) { int n = 4 + (int)(trial % 5); Eigen::MatrixXd H = Eigen::MatrixXd::Zero(n, n);
+      for (int i = 0; i < n; i++) for (int j = 0; j < n; j++) if (i <= j + 1) H(i, j) = rnd();
+      try { UpperHessenbergSchur<double> sch(H); Eigen::MatrixXd U = sch.matrix_U(), S = sch.matrix_T();
+        if (!((U * S * U.transpose() - H).norm() <= 1e-9 * (H.norm() + 1e-300))) { printf("integer Hessenberg trial %ld (n=%d): ||U T U' - H|| = %g\n", trial, n, (U * S * U.transpose() - H).norm()); bad++; }
+      } catch (const std::exception&) {} } }
   printf(bad ? "REPRODUCED (%d)\n" : "not reproduced (%d)\n", bad); return bad ? 1 : 0;
 }
